@@ -9,6 +9,7 @@
 import JanetModel.Int64.Lemmas
 import JanetModel.Int64.LemmasN
 import JanetModel.Int64.LemmasQ
+import JanetModel.Int64.LemmasC
 namespace JanetModel.Props.C14
 open JanetModel.Int64 JanetModel.Gen.Int64
 
@@ -155,6 +156,72 @@ theorem unwrap_range (d : Dbl) (n : Int) :
   · constructor
     · rintro ⟨h1, h2⟩; subst h2; exact ⟨rfl, h1⟩
     · rintro ⟨h1, h2⟩; subst h1; exact ⟨h2, rfl⟩
+
+/-! ## numeric strings as operands -/
+
+/-- `janet_unwrap_s64` / `janet_unwrap_u64` of a string: `janet_scan_int64` / `janet_scan_uint64`, "can not convert" when the
+    scan rejects; an accepted string is a value of the type (never wraps) -/
+theorem string_operand_scanned (k : Kind) (s : List Nat) :
+    unwrap k (.str s) =
+      (match k with
+       | .s64 => (match scanInt64 s with | some n => .ok n | none => .err .cvts)
+       | .u64 => (match scanU64 s with | some n => .ok n | none => .err .cvtu)) ∧
+    (∀ n, unwrap k (.str s) = .ok n → k.inRange n) := by
+  refine ⟨unwrap_str k s, fun n h => ?_⟩
+  rw [unwrap_str] at h
+  cases k with
+  | s64 =>
+    simp only [] at h
+    cases hs : scanInt64 s with
+    | none => rw [hs] at h; exact absurd h (by simp)
+    | some m => rw [hs] at h; injection h with h; subst h; exact (scan_results_in_range s).1 m hs
+  | u64 =>
+    simp only [] at h
+    cases hs : scanU64 s with
+    | none => rw [hs] at h; exact absurd h (by simp)
+    | some m => rw [hs] at h; injection h with h; subst h; exact (scan_results_in_range s).2 m hs
+
+/-- the digit loop of `scan_uint64`: an accepted digit string yields exactly the number it denotes (Horner in the base, `_`
+    skipped) and that number fits 64 bits; a digit string denoting more than 2^64-1 is rejected ("does not fit ⇒ error") -/
+theorem string_digits_exact_or_rejected (base : Nat) (ds : List Nat) (seen : Bool) :
+    (∀ v, scanDigits base ds 0 seen = some v → v = digitsValue base ds 0 ∧ v ≤ uint64Max) ∧
+    (uint64Max < digitsValue base ds 0 → scanDigits base ds 0 seen = none) :=
+  ⟨fun v h => scanDigits_some base ds 0 seen v (by decide) h, fun h => scanDigits_overflow_none base ds 0 seen (by decide) h⟩
+
+/-- **every operator entry coerces a string the same way**: in either argument position of every two-argument method of
+    both types (the 6 macros incl. the reversed `r-`, `r/`, `r%`, `rmod` forms, and the hand-written `div`/`rdiv`/`mod`/`rmod` of
+    s64) a string that scans to `n` behaves exactly as the box holding `n`, and a string that does not scan / does not fit makes
+    the call fail with the conversion error.  (The VM opcodes reach these methods through `binopCall` —
+    `dispatch_left_then_reversed_right`; the n-ary methods are folds of them — `nary_methods_are_left_folds`.) -/
+theorem string_operands_every_entry (c : Cfg) (k : Kind) (f mac name oper : String)
+    (hrow : lookupInstance f = some (mac, kindName k, name, oper)) (hmac : IsBinaryMacro mac) (s : List Nat) :
+    (∀ n other, unwrap k (.str s) = .ok n →
+      callCfun2 c k f other (.str s) = callCfun2 c k f other (Val.box k n) ∧
+      callCfun2 c k f (.str s) other = callCfun2 c k f (Val.box k n) other) ∧
+    (∀ e a, unwrap k (.str s) = .err e →
+      callCfun2 c k f (Val.box k a) (.str s) = .err e ∧ callCfun2 c k f (.str s) (Val.box k a) = .err e) :=
+  ⟨fun n other h => callCfun2_str_ok c k f mac name oper hrow hmac s n h other,
+   fun e a h => callCfun2_str_err c k f mac name oper hrow hmac s e h a⟩
+
+theorem string_operands_handwritten (c : Cfg) (f : String) (hf : f = "s64_divf" ∨ f = "s64_divfi" ∨ f = "s64_mod" ∨ f = "s64_modi")
+    (s : List Nat) (other : Val) :
+    (∀ n, unwrapS (.str s) = .ok n →
+      callCfun2 c .s64 f other (.str s) = callCfun2 c .s64 f other (.s64 n) ∧
+      callCfun2 c .s64 f (.str s) other = callCfun2 c .s64 f (.s64 n) other) ∧
+    (∀ e a, unwrapS (.str s) = .err e →
+      callCfun2 c .s64 f (.s64 a) (.str s) = .err e ∧ callCfun2 c .s64 f (.str s) (.s64 a) = .err e) :=
+  callCfun2_str_hand c f hf s other
+
+/-- every two-argument method of the current tree is covered by the two theorems above (macro rows are all of the six
+    two-argument macros or `UNARYMETHOD`; the remaining table entries are the four hand-written ones and `compare`) -/
+theorem string_entries_complete :
+    (instances.all (fun r => r.2.1 == "UNARYMETHOD" || r.2.1 == "OPMETHOD" || r.2.1 == "OPMETHODINVERT" || r.2.1 == "DIVMETHOD" ||
+        r.2.1 == "DIVMETHODINVERT" || r.2.1 == "DIVMETHOD_SIGNED" || r.2.1 == "DIVMETHODINVERT_SIGNED")) = true ∧
+    ((s64Methods ++ u64Methods).all (fun m => (instances.any (fun r => r.1 == m.2)) ||
+        m.2 == "s64_divf" || m.2 == "s64_divfi" || m.2 == "s64_mod" || m.2 == "s64_modi" || m.2 == "s64_compare" || m.2 == "u64_compare")) = true := by
+  refine ⟨by decide, by decide⟩
+
+example : unwrap .s64 (.str [45, 49]) = .ok (-1) ∧ unwrap .u64 (.str [45, 49]) = .err .cvtu := by decide
 
 /-! ## calls with more than two arguments -/
 
@@ -400,6 +467,52 @@ theorem nary_rows_complete :
        ("s64", "s64_or"), ("s64", "s64_xor"), ("s64", "s64_lshift"), ("s64", "s64_rshift"),
        ("u64", "u64_add"), ("u64", "u64_sub"), ("u64", "u64_mul"), ("u64", "u64_div"), ("u64", "u64_rem"), ("u64", "u64_mod"),
        ("u64", "u64_and"), ("u64", "u64_or"), ("u64", "u64_xor"), ("u64", "u64_lshift"), ("u64", "u64_rshift")] := by decide
+
+/-- ★ "order values correctly against each other and against doubles over the whole range": on the current source boot.janet's
+    polymorphic `compare` of any two numeric values — a number other than NaN (±inf included), an int/s64, an int/u64, in
+    all nine type combinations and both operand orders (left method, or the right operand's method negated) — is the
+    three-way comparison of their **mathematical values** (`Val.ext?`: rationals extended by ±inf); the result is one of
+    the numbers -1, 0, 1 (or -0.0 for "equal" when the right operand's method answered). -/
+theorem poly_compare_correct (x y : Val) (vx vy : ExtQ) (hx : x.ext? = some vx) (hy : y.ext? = some vy) (wx : x.wf) (wy : y.wf) :
+    ∃ r, polyCompare cfgGen x y = .ok r ∧ resInt r = some (cmpExt vx vy) ∧
+      (r = Val.ofInt (cmpExt vx vy) ∨ (cmpExt vx vy = 0 ∧ r = .num 0x8000000000000000)) :=
+  polyCompare_correct cfgGen (by decide) (by decide) (by decide) x y vx vy hx hy wx wy
+
+/-- ★ `(compare< x1 ... xn)`, `compare<=`, `compare=`, `compare>`, `compare>=` on numeric values of any type mix: true iff
+    every adjacent pair is in that relation **as mathematical values** (for any `NumOps`: no floating-point arithmetic is
+    involved) -/
+theorem compare_chain_correct (N : NumOps) (x : Val) (rest : List Val) (hall : ∀ v ∈ x :: rest, v.numeric) :
+    evalFn cfgGen N "compare<" (x :: rest) = .ok (.bool ((adjacentPairs x rest).all (fun p => decide (cmpExt p.1.extD p.2.extD < 0)))) ∧
+    evalFn cfgGen N "compare<=" (x :: rest) = .ok (.bool ((adjacentPairs x rest).all (fun p => decide (cmpExt p.1.extD p.2.extD ≤ 0)))) ∧
+    evalFn cfgGen N "compare=" (x :: rest) = .ok (.bool ((adjacentPairs x rest).all (fun p => decide (cmpExt p.1.extD p.2.extD = 0)))) ∧
+    evalFn cfgGen N "compare>" (x :: rest) = .ok (.bool ((adjacentPairs x rest).all (fun p => decide (cmpExt p.1.extD p.2.extD > 0)))) ∧
+    evalFn cfgGen N "compare>=" (x :: rest) = .ok (.bool ((adjacentPairs x rest).all (fun p => decide (cmpExt p.1.extD p.2.extD ≥ 0)))) := by
+  have h := fun op hop => compareReduce_numeric cfgGen (by decide) (by decide) (by decide) N op hop x rest hall
+  refine ⟨?_, ?_, ?_, ?_, ?_⟩
+  · exact Eq.trans (b := compareReduce cfgGen N "JOP_LESS_THAN" x rest) rfl (h _ (Or.inl rfl))
+  · exact Eq.trans (b := compareReduce cfgGen N "JOP_LESS_THAN_EQUAL" x rest) rfl (h _ (Or.inr (Or.inl rfl)))
+  · exact Eq.trans (b := compareReduce cfgGen N "JOP_EQUALS" x rest) rfl (h _ (Or.inr (Or.inr (Or.inr (Or.inr rfl)))))
+  · exact Eq.trans (b := compareReduce cfgGen N "JOP_GREATER_THAN" x rest) rfl (h _ (Or.inr (Or.inr (Or.inl rfl))))
+  · exact Eq.trans (b := compareReduce cfgGen N "JOP_GREATER_THAN_EQUAL" x rest) rfl (h _ (Or.inr (Or.inr (Or.inr (Or.inl rfl)))))
+
+example : (Val.s64 (-3)).numeric ∧ (Val.u64 18446744073709551615).numeric ∧ (Val.num 0x7ff0000000000000).numeric ∧ ¬ (Val.num 0x7ff8000000000000).numeric := by
+  have hi : decode 0x7ff0000000000000 = .inf false := by decide
+  have hn : decode 0x7ff8000000000000 = .nan := by decide
+  refine ⟨⟨⟨_, rfl⟩, ?_⟩, ⟨⟨_, rfl⟩, ?_⟩, ⟨⟨.pinf, ?_⟩, trivial⟩, ?_⟩
+  · show Kind.s64.inRange (-3); decide
+  · show Kind.u64.inRange 18446744073709551615; decide
+  · simp [Val.ext?, hi, Dbl.ext?]
+  · rintro ⟨⟨q, h⟩, _⟩
+    simp [Val.ext?, hn, Dbl.ext?] at h
+
+/-- the primitive comparators do NOT order an int/s64 against an int/u64 (or against a number) by value: `janet_compare`
+    orders values of different types by type, two abstract types by the address of their descriptors — every s64 is on
+    the same side of every u64, whatever the values (this is janet's documented primitive order; value order is `compare`) -/
+theorem primitive_order_s64_u64_is_by_type (c : Cfg) (a b : Int) :
+    janetCompare c (.s64 a) (.u64 b) = (if c.s64BelowU64 then -1 else 1) ∧
+    janetCompare c (.u64 b) (.s64 a) = (if c.s64BelowU64 then 1 else -1) ∧
+    (∀ n, janetCompare c (.num n) (.s64 a) = -1 ∧ janetCompare c (.s64 a) (.num n) = 1) := by
+  refine ⟨rfl, rfl, fun n => ⟨rfl, rfl⟩⟩
 
 /-- the method tables of the current source: every binary operator has its reversed variant bound to the function with
     swapped operands (non-commutative operators) or to the same function (commutative ones); no reversed shift methods;
